@@ -197,6 +197,19 @@ def make(e, progs, job):
             lv = lab.z() if not isinstance(lab.t, int) else z3.BitVecVal(lab.t, 8)
             okl = b_and(okl, lv == z3.If(pos, z3.BitVecVal(1, 8), z3.BitVecVal(0, 8)) if not isinstance(pos, bool) else (lv == (1 if pos else 0)))
         e.check(okl, 'label is WB iff score > 0')
+        if job['n'] <= 2 and not job.get('cache3'):
+            # prediction on an already predicted sentence object (no update in between) still reports the model's scores
+            S.call(e, prog, 'Predictor', 'predict', [Ref(pcell), Ref(cell)])
+            scores2 = S.seq_vals(S.call(e, prog, 'Sentence', 'boundary_scores', [Ref(cell)]))
+            labels2 = S.seq_vals(S.call(e, prog, 'Sentence', 'boundaries', [Ref(cell)]))
+            ok2 = len(scores2) == n - 1 and len(labels2) == n - 1
+            if ok2:
+                for got, w in zip(scores2, want):
+                    ok2 = b_and(ok2, e.binop('Eq', got, w))
+                for l1, l2 in zip(labels, labels2):
+                    ok2 = b_and(ok2, e.binop('Eq', l1, l2))
+            st['again'] = True
+            e.check(ok2, 'score equals the pointwise linear model')
         if any(len(chr(c.t).encode()) > 1 if type(c.t) is int else (c.org and len(c.org) > 1 and c.org[1] > 1) for c in ss.chars):
             e.cover('multibyte')
         if any(type(c.t) is int for c in ss.chars) or P.uses_types(shape):
@@ -206,9 +219,11 @@ def make(e, progs, job):
         ms = st['ms']
         text = st['s'].py(m)
         mj = P.model_json(ms, m)
-        return {'property': ID, 'job': job, 'text': text, 'model': mj,
-                'ops': [{'op': 'model', 'id': 'm', 'data': mj}, {'op': 'predictor', 'id': 'p', 'model': 'm', 'tags': False},
-                        {'op': 'sentence', 'id': 's', 'kind': 'raw', 'text': text}, {'op': 'predict', 's': 's', 'p': 'p'}, {'op': 'observe', 's': 's'}]}
+        ops = [{'op': 'model', 'id': 'm', 'data': mj}, {'op': 'predictor', 'id': 'p', 'model': 'm', 'tags': False},
+               {'op': 'sentence', 'id': 's', 'kind': 'raw', 'text': text}, {'op': 'predict', 's': 's', 'p': 'p'}, {'op': 'observe', 's': 's'}]
+        if st.get('again'):
+            ops += [{'op': 'predict', 's': 's', 'p': 'p'}, {'op': 'observe', 's': 's'}]
+        return {'property': ID, 'job': job, 'text': text, 'model': mj, 'ops': ops}
 
     def sample():
         if e.solver is None or 's' not in st or e._check() != z3.sat:
@@ -234,16 +249,18 @@ def native_violations(sc, res):
             return ['panic in %s: %s' % (op['op'], r.get('panic'))]
         if isinstance(r, dict) and 'err' in r:
             return ['error in %s: %s' % (op['op'], r['err'])]
-    ob = res[-1]
-    okf, bad = S.native_obs_ok(ob)
-    if not okf:
-        return ['panic in accessors: %s' % bad]
     want = P.concrete_scores(sc['model'], sc['text'])
     out = []
-    if ob['scores'] != want:
-        out.append('score equals the pointwise linear model')
-    if ob['boundaries'] != [1 if x > 0 else 0 for x in want]:
-        out.append('label is WB iff score > 0')
+    for op, ob in zip(sc['ops'], res):
+        if op['op'] != 'observe':
+            continue
+        okf, bad = S.native_obs_ok(ob)
+        if not okf:
+            return ['panic in accessors: %s' % bad]
+        if ob['scores'] != want and 'score equals the pointwise linear model' not in out:
+            out.append('score equals the pointwise linear model')
+        if ob['boundaries'] != [1 if x > 0 else 0 for x in want] and 'label is WB iff score > 0' not in out:
+            out.append('label is WB iff score > 0')
     return out
 
 
